@@ -106,20 +106,15 @@ def r2_set_is_existence_checked(ctx):
         ctx.check(ok, f.qual + "#exists", "a key for which has() is false raises before the store" if ok else "no existence check dominates the store: a misspelt key silently creates a new attribute", where=f, node=st)
     ao = ctx.func("pyxel.run:apply_overrides")
     sa = [n for n in walk_ordered(ao.node) if isinstance(n, ast.Call) and call_name(n) == "setattr"]
+    from sa.astutil import raise_conditions as _rc
+
     for c in sa:
-        ts = enclosing_tests(c)
-        ok = any(pol and norm(t) == f"hasattr({norm(c.args[0])}, {norm(c.args[1])})" for t, pol in ts)
-        # the else branch raises
-        iff = None
-        from sa.index import ancestors
-
-        for anc in ancestors(c):
-            if isinstance(anc, ast.If) and norm(anc.test).startswith("hasattr("):
-                iff = anc
-                break
-        from sa.cfg import ends_in_raise
-
-        ok = ok and iff is not None and ends_in_raise(iff.orelse)
+        want = f"hasattr({norm(c.args[0])}, {norm(c.args[1])})"
+        # the store happens only where the attribute is known to exist (if-branch or after a raising guard clause) ...
+        ts = enclosing_tests(c, rejections=True)
+        ok = any(pol and norm(t) == want for t, pol in ts)
+        # ... and a key whose attribute does not exist is refused
+        ok = ok and any(any((not pol) and norm(t) == want for t, pol in conds) for _, conds in _rc(ao))
         ctx.check(ok, ao.qual + "#mode-key", "running-mode override: hasattr guard, else raise" if ok else "a misspelt running-mode override key creates a new attribute", where=ao, node=c)
     ps = stmt_calls(ao, ctx.R, {f"{PROC}.set"})
     ok = len(ps) == 1 and dotted(kw(ps[0], "key") or (ps[0].args[0] if ps[0].args else None)) == "key" and dotted(kw(ps[0], "value") or (ps[0].args[1] if len(ps[0].args) > 1 else None)) == "value"
@@ -278,35 +273,75 @@ def r4_validate_steps(ctx):
     sv = lp.target.id
     g = ctx.cfg(f)
     header = g.node_of(lp)
-    guards = [i for i in raising_ifs(lp)]
+    # decided on the conditions under which each `raise` of one iteration is reached (canonical polarity;
+    # `if bad: raise`, `if good: return` + raise, else-branches and inlined helpers all read the same)
+    from sa.astutil import raise_conditions
 
-    def every_iteration(iff):
-        # the guard's test is evaluated on every iteration (not nested under other conditions)
-        return not enclosing_tests(iff, stop=lp)
+    def _cat(e) -> str:
+        """'a' + b / f"{b}a" as one canonical concatenation text."""
+        e = expand(f, e)
+        if isinstance(e, ast.JoinedStr):
+            parts = []
+            for v in e.values:
+                if isinstance(v, ast.Constant):
+                    parts.append(repr(v.value))
+                elif isinstance(v, ast.FormattedValue) and v.format_spec is None and v.conversion == -1:
+                    parts.append(norm(expand(f, v.value)))
+                else:
+                    return norm(e)
+            return " + ".join(parts)
+        if isinstance(e, ast.BinOp) and isinstance(e.op, ast.Add):
+            return _cat(e.left) + " + " + _cat(e.right)
+        return norm(e)
 
-    g_has = [i for i in guards if norm(expand(f, i.test)) == f"not {p}.has({sv}.key)"]
-    ok = len(g_has) == 1 and every_iteration(g_has[0])
+    key_txt = f"{sv}.key"
+    raises_ = []
+    for r_, conds in raise_conditions(f):
+        if not contains(lp, r_):
+            continue
+        flat = []
+
+        def _flat(t, pol):
+            t = expand(f, t)
+            if isinstance(t, ast.UnaryOp) and isinstance(t.op, ast.Not):
+                return _flat(t.operand, not pol)
+            if isinstance(t, ast.BoolOp) and ((isinstance(t.op, ast.And) and pol) or (isinstance(t.op, ast.Or) and not pol)):
+                for v in t.values:
+                    _flat(v, pol)
+                return
+            flat.append((norm(t), pol, t))
+
+        for t, pol in conds:
+            _flat(t, pol)
+        raises_.append((r_, flat))
+    g_has = [r_ for r_, cs in raises_ if [(t, pol) for t, pol, _ in cs] == [(f"{p}.has({key_txt})", False)] or [(t, pol) for t, pol, _ in cs] == [(f"{p}.has(key={key_txt})", False)]]
+    ok = len(g_has) == 1
     ctx.check(ok, f.qual + "#has", "a key that does not exist raises" if ok else "validate_steps no longer rejects a key that does not exist", where=f, node=g_has[0] if g_has else lp)
     g_en = []
-    for i in guards:
-        t = expand(f, i.test)
-        if isinstance(t, ast.UnaryOp) and isinstance(t.op, ast.Not) and isinstance(t.operand, ast.Call) and dotted(t.operand.func) == f"{p}.get":
-            g_en.append((i, t.operand.args[0] if t.operand.args else None))
+    for r_, cs in raises_:
+        for t, pol, raw in cs:
+            rx = expand(f, raw)
+            if not pol and isinstance(rx, ast.Call) and dotted(rx.func) == f"{p}.get" and rx.args:
+                g_en.append((r_, rx.args[0], cs))
     ok = len(g_en) == 1
     why = "no check that the addressed model is enabled"
     if ok:
-        i, a = g_en[0]
-        want = f"{sv}.key[:{sv}.key.find('.arguments')] + '.enabled'"
-        ok = a is not None and norm(a) == want
-        ts = enclosing_tests(i, stop=lp)
-        ok = ok and len(ts) == 1 and ts[0][1] and norm(expand(f, ts[0][0])) == f"'pipeline.' in {sv}.key"
-        why = "an argument of a disabled model raises" if ok else f"enabled check looks up {norm(a)} under {[norm(t_) for t_, _ in ts]}"
+        r_, a, cs = g_en[0]
+        want = f"{key_txt}[:{key_txt}.find('.arguments')] + '.enabled'"
+        others = [(t, pol) for t, pol, raw in cs if not (isinstance(expand(f, raw), ast.Call) and dotted(expand(f, raw).func) == f"{p}.get")]
+        has_ok = [(t, pol) for t, pol in others if t in (f"{p}.has({key_txt})", f"{p}.has(key={key_txt})")]
+        rest = [x for x in others if x not in has_ok]
+        ok = _cat(a) == want and rest == [(f"'pipeline.' in {key_txt}", True)] and all(pol for _, pol in has_ok)
+        why = "an argument of a disabled model raises" if ok else f"enabled check looks up {_cat(a)} under {rest}"
     ctx.check(ok, f.qual + "#enabled", why, where=f, node=g_en[0][0] if g_en else lp)
-    g_ph = [i for i in guards if "'_'" in norm(i.test) and "CustomMode" in norm(i.test)]
-    ok = len(g_ph) == 1 and every_iteration(g_ph[0])
-    if ok:
-        cj = [norm(c) for c in conjuncts(g_ph[0].test)]
-        ok = any(c.startswith("any(") and f"{sv}.values" in c for c in cj) and "not isinstance(self.parameter_mode, CustomMode)" in cj
+    g_ph = []
+    for r_, cs in raises_:
+        ts = [(t, pol) for t, pol, _ in cs]
+        if any("'_'" in t and t.startswith("any(") and f"{sv}.values" in t and pol for t, pol in ts) and ("isinstance(self.parameter_mode, CustomMode)", False) in ts:
+            extra = [(t, pol) for t, pol in ts if not (t.startswith("any(") or "CustomMode" in t or t in (f"{p}.has({key_txt})", f"{p}.has(key={key_txt})") or "'pipeline.' in" in t or f"{p}.get(" in t)]
+            if not extra:
+                g_ph.append(r_)
+    ok = len(g_ph) == 1
     ctx.check(ok, f.qual + "#placeholder", "'_' outside custom mode raises" if ok else "placeholder check changed", where=f, node=g_ph[0] if g_ph else lp)
     for n in loop_exits(lp):
         if isinstance(n, (ast.Break, ast.Return)) or isinstance(n, ast.Continue):
